@@ -51,7 +51,7 @@ def reg_step(m, rnd, kind=None):
         m.tab.postfix.add(name)
         m.handlers[("postfix", name)] = b
         return {"op": "reg_postfix", "name": name, "beh": b.to_json()}
-    name = rnd.choice(["+", "in", "=", "hi", "xor", "**", "hi", "xor", "<>", "-", "=="])
+    name = rnd.choice(["+", "in", "=", "hi", "xor", "**", "hi", "xor", "<>", "-", "==", "&&", "||", "<", "*", "+="])
     mine = sorted(o for (kk, o) in m.handlers if kk == "infix" and o not in ref.BUILTIN_INFIX)
     if mine and rnd.random() < 0.4:
         # re-register one of the user's operators changing only the associativity or only the precedence
@@ -87,7 +87,8 @@ def use_program(m, rnd):
     k = gen.wchoice(rnd, [("infix", 4), ("chain", 4), ("prefix", 2), ("postfix", 2), ("fn", 3), ("builtin", 2), ("assign", 1.5), ("rebind", 0.7)])
     if k == "infix":
         op = rnd.choice(sorted({o for (kk, o) in m.handlers if kk == "infix"} or {"+"}))
-        return ["bin", op, n(6), n(4)] if m.tab.infix[op][2] == "CALC" else ["stmt", [["bin", op, ["ref", "v"], n(4)], ["ref", "v"]]]
+        l_, r_ = rnd.choice([(n(6), n(4))] * 3 + [(["bool", False], n(4)), (["bool", True], ["bool", False]), (["bool", False], ["bool", False]), (["str", "a"], n(0)), (n(0), n(0)), (["ref", "nil"], ["list", []])])
+        return ["bin", op, l_, r_] if m.tab.infix[op][2] == "CALC" else ["stmt", [["bin", op, ["ref", "v"], n(4)], ["ref", "v"]]]
     if k == "chain":
         ops = [rnd.choice(sorted({o for (kk, o) in m.handlers if kk == "infix"} | {"+", "*", "<", "&&"})) for _ in range(rnd.randint(2, 3))]
         if rnd.random() < 0.4:
@@ -156,8 +157,12 @@ def history(rnd):
         cid = len(steps)
         steps.append({"op": "ctx", "id": cid, "vars": cvars, "fns": cfns})
         plan.append(None)
-        steps.append({"op": "exec", "ctx": cid, "text": text, "want": "ae"})
-        exp, ev = ref.evaluate(t, ctx, **m.kw())
+        fault = None
+        if rnd.random() < 0.2:
+            # one handler invocation of this evaluation fails: nothing else may be called in its place
+            fault = (rnd.randint(1, 2), "err")
+        steps.append(dict({"op": "exec", "ctx": cid, "text": text, "want": "ae"}, **({"fault": {"k": fault[0], "kind": "err"}} if fault else {})))
+        exp, ev = ref.evaluate(t, ctx, fault=fault, **m.kw())
         plan.append((text, t, exp, ev, "first-step-was-registration" if first_is_reg else "first-step-was-use"))
     return steps, plan
 
